@@ -29,6 +29,15 @@ DEPTH_FIXED the correspondence includes texts nested 63, 64, 65, 1000 and
 100000 deep (on the harness worker and on an 8 MiB stack) and a crash is a
 plain violation.
 
+White space before a constructor argument (`Original( NoAction)`, /repo fdd053a): the mirror's flag
+`fixed_ctor_ws` (variant 3 of the model runner); `header_ctor_ws_refuted` (pinned: IllegalName at the
+byte after '('; repaired: the value of `Original(NoAction)`), `header_layout_insensitive_ctor` (repaired,
+EVERY run of Pattern_White_Space after the '(': same value, end position moved by the run's length) and
+`header_layout_sensitive_ctor_pinned`.  A fixed family (gen/c12gen.ctor_ws_headers: 12 runs after '(' x 6
+before ')' x 6 constructor values, the audit's texts, arrays / several values per section) is part of every
+run: implementation = mirror on each, the mirror's value = the value of the same section without that
+white space (the theorem replayed), and so is the implementation's.
+
 The yacc and lex parsers are impl-only oracles here (their mirrors are plugged
 in by C10/C11).
 
@@ -66,6 +75,10 @@ HEADER_FIXED = True
 #           (impl = mirror variant 2, exactly) and any crash is a violation
 # The coordinator flips this to True in the commit that adds the limit to header.rs.
 DEPTH_FIXED = True
+# White space between the '(' of a constructor value and its argument (/repo fdd053a):
+#   False = header.rs calls parse_namespaced directly at the byte after '(' (mirror variant 2)
+#   True  = header.rs skips white space there as everywhere else (mirror variant 3 = fixed_ctor_ws)
+CTOR_WS_FIXED = True
 MAX_SETTING_DEPTH = 64          # = HeaderModel.MAX_SETTING_DEPTH = header.rs MAX_SETTING_DEPTH
 
 K_ARRAY = "header: unterminated array value never terminates"
@@ -111,6 +124,57 @@ def conv_segments(line):
 
 def hx(s):
     return s.encode("utf-8").hex() or "-"
+
+
+def unspan(line):
+    """the parsed VALUE of an `OK …` line of the harness / the model runner with every span (and the end position)
+    removed: [(key, value)] in the section's order, value = nested tuples; None when the line is not an OK line"""
+    tk = line.split(" # ")[0].split(" ")
+    if not tk or tk[0] != "OK":
+        return None
+    pos = [2]
+
+    def take(n=1):
+        r = tk[pos[0]:pos[0] + n]
+        pos[0] += n
+        return r
+
+    def ns():
+        if take()[0] == "+":
+            space = take(3)[0]
+        else:
+            space = None
+        return (space, take(3)[0])
+
+    def setting():
+        k = take()[0]
+        if k == "U":
+            return ("U", ns())
+        if k == "C":
+            return ("C", ns(), ns())
+        if k in ("N", "S"):
+            return (k, take(3)[0])
+        if k == "A":
+            n = int(take(5)[4])
+            return ("A", tuple(setting() for _ in range(n)))
+        raise ValueError(k)
+
+    out = []
+    try:
+        while pos[0] < len(tk):
+            assert take()[0] == "E"
+            key = take(3)[0]
+            if tk[pos[0]] == "F":
+                out.append((key, ("F", take(4)[1])))
+            else:
+                out.append((key, setting()))
+    except (ValueError, IndexError, AssertionError):
+        return ("unparsed", line.split(" # ")[0])
+    return out
+
+
+def ws_after_paren(t):
+    return re.search("\\([\t\n\x0b\x0c\r \x85\u200e\u200f\u2028\u2029]", t) is not None
 
 
 DEEP_RECIPE = {}        # text -> python expression regenerating it (deep-nesting cases)
@@ -181,6 +245,15 @@ def generate(ctx):
                 for w in ws_:
                     add(w, h + tail, "deep")
                     DEEP_RECIPE.setdefault(h + tail, DEEP_RECIPE[h] + " + %r" % tail)
+    # ---- white space after '(' / before ')' of a constructor value: a fixed family, in every run; the first ones
+    # also through both from_str routes of the yacc parser and through the lex parser
+    for i, (t, ref) in enumerate(c12gen.ctor_ws_headers()):
+        add_h(t, "ctorws")
+        add_h(ref, "ctorws")
+        if i < 40 or i % 9 == 0:
+            add("YF", t + c12gen.YACC_BODY, "ctorws")
+            add("ZF", t + c12gen.YACC_BODY, "ctorws")
+            add("L", t + c12gen.LEX_BODY, "ctorws")
     # ---- enum values of the section (yacckind / recoverer / serialisation_format / lexerkind): the audit's three
     # texts first, then the near-valid family; through the section parser (both `required`), both from_str routes
     # of the yacc parser (where YaccKind::try_from runs) and the lex parser
@@ -366,16 +439,44 @@ def run(ctx):
     m_orig = dict(zip(keys, mo))
     m_fixed = dict(zip(keys, mf))
     keys2 = sorted(set((1 if w == "H1" else 0, t) for w, t, o in cases if DEPTH_FIXED or (w != "HS" and o != "deep")))
-    md = core.run_lines(["sh", "-c", "ulimit -s 1000000 2>/dev/null; exec '%s'" % mexe],
-                        ["2 %d %s" % (r, hx(t)) for r, t in keys2])
+    big = ["sh", "-c", "ulimit -s 1000000 2>/dev/null; exec '%s'" % mexe]
+    md = core.run_lines(big, ["2 %d %s" % (r, hx(t)) for r, t in keys2])
     m_depth = dict(zip(keys2, md))
     # the nesting limit is inert below MAX_SETTING_DEPTH: on the generated texts (nesting < 10) the
     # mirror with the limit answers exactly as the one without it
     inert = [k for k in keys if m_fixed[k] != m_depth[k]]
     ctx.oblige(not inert, "mirror: the nesting limit changes no result on the %d generated texts (first difference: %r)"
                % (len(keys), (inert[0][1][:200] if inert else None)))
-    tied = m_depth if DEPTH_FIXED else (m_fixed if HEADER_FIXED else m_orig)
-    variant = "repaired + nesting limit" if DEPTH_FIXED else ("repaired" if HEADER_FIXED else "pinned")
+    # variant 3 = variant 2 + white space skipped between '(' and the argument of a constructor value
+    mc = core.run_lines(big, ["3 %d %s" % (r, hx(t)) for r, t in keys2])
+    m_ctor = dict(zip(keys2, mc))
+    # ... which is inert on every text without white space directly after a '(' ...
+    inert3 = [k for k in keys2 if m_ctor[k] != m_depth[k] and not ws_after_paren(k[1])]
+    ctx.oblige(not inert3, "mirror: skipping white space before a constructor argument changes no result on the %d texts "
+               "without white space after a '(' (first difference: %r)" % (len(keys2), (inert3[0][1][:200] if inert3 else None)))
+    # ... and on the family the theorems replayed: C12_header_layout_insensitive_ctor (repaired: the value of the section
+    # without that white space), C12_header_layout_sensitive_ctor_pinned (pinned: an error whenever there is white space
+    # after a '(' that starts an argument)
+    fam = c12gen.ctor_ws_headers()
+    fam_bad = []
+    n_fam_pinned_err = 0
+    for t, ref in fam:
+        for rq in (0, 1):
+            a, b = unspan(m_ctor[(rq, t)]), unspan(m_ctor[(rq, ref)])
+            if a is None or a != b:
+                fam_bad.append((t, m_ctor[(rq, t)][:120], m_ctor[(rq, ref)][:120]))
+            if ws_after_paren(t):
+                n_fam_pinned_err += 1
+                if not m_depth[(rq, t)].startswith("ERRS 1 X IllegalName 1 "):
+                    fam_bad.append((t, "pinned", m_depth[(rq, t)][:120]))
+    ctx.oblige(not fam_bad, "mirror on the constructor white-space family (%d sections x 2): repaired = the value of the section "
+               "without the white space; pinned = IllegalName on the %d with white space after '(' (first: %r)"
+               % (len(fam), n_fam_pinned_err, fam_bad[:1]))
+    if CTOR_WS_FIXED and DEPTH_FIXED:
+        tied, variant = m_ctor, "repaired + nesting limit + white space before a constructor argument"
+    else:
+        tied = m_depth if DEPTH_FIXED else (m_fixed if HEADER_FIXED else m_orig)
+        variant = "repaired + nesting limit" if DEPTH_FIXED else ("repaired" if HEADER_FIXED else "pinned")
 
     # ---- a hang costs 2 s of wall clock.  "Risky" = the pinned mirror runs out of fuel on the text.
     # Before the repair only a sample of the risky cases is run on the implementation.  After it
@@ -389,6 +490,7 @@ def run(ctx):
             m_orig.setdefault((rq, t), NOMIRROR)
             m_fixed.setdefault((rq, t), NOMIRROR)
             m_depth.setdefault((rq, t), NOMIRROR)
+            m_ctor.setdefault((rq, t), NOMIRROR)
 
     def risky(c):
         return m_orig[(1 if c[0] == "H1" else 0, c[1])] == "HANG"
@@ -527,7 +629,7 @@ def run(ctx):
             if t in DEEP_RECIPE:
                 d["text_expr"] = "L = %d; %s" % (MAX_SETTING_DEPTH, DEEP_RECIPE[t])
             d.update({"violated": "C12: " + bad, "mirror_pinned": mo_[:300], "mirror_repaired": mf_[:300],
-                      "mirror_nesting_limit": m_depth[(rq, t)][:300],
+                      "mirror_nesting_limit": m_depth[(rq, t)][:300], "mirror_ctor_ws": m_ctor[(rq, t)][:300],
                       "authority": "the implementation itself: the property forbids this outcome for every input"})
             ctx.violation(d, known_key=known)
         if w in ("H0", "H1") or (w == "HS" and DEPTH_FIXED):
@@ -558,9 +660,37 @@ def run(ctx):
                     if t in DEEP_RECIPE:
                         d["text_expr"] = "L = %d; %s" % (MAX_SETTING_DEPTH, DEEP_RECIPE[t])
                     d.update({"mirror": mt[:600], "variant": variant,
-                              "broken": "correspondence header.rs <-> C12/HeaderModel.v (C12_header_total, C12_header_spans_wellformed, C12_header_depth_bounded speak about the mirror)"})
+                              "broken": "correspondence header.rs <-> C12/HeaderModel.v (C12_header_total, C12_header_spans_wellformed, C12_header_depth_bounded, C12_header_layout_insensitive_ctor speak about the mirror)"})
                     deferred.append(d)
                 # (when the implementation's outcome is itself a C12 witness it was reported above)
+    # ---- the constructor white-space family on the implementation: the value (spans apart) of every member = the value
+    # of the same section without the white space after '(' / before ')' (C12_header_layout_insensitive_ctor is about the
+    # mirror; this is the same statement observed on header.rs, with the failing text as input)
+    impl_h = {}
+    for (w, t, origin), line, out in zip(selected, lines, impl):
+        if origin == "ctorws" and w in ("H0", "H1"):
+            impl_h[(w, t)] = (line, out)
+    n_fam = n_fam_bad = 0
+    if CTOR_WS_FIXED:
+        for t, ref in fam:
+            for w in ("H0", "H1"):
+                if (w, t) not in impl_h or (w, ref) not in impl_h:
+                    continue
+                (la, oa), (lb, ob) = impl_h[(w, t)], impl_h[(w, ref)]
+                n_fam += 1
+                if unspan(oa) is None or unspan(oa) != unspan(ob):
+                    n_fam_bad += 1
+                    ctx.violation({"violated": "C12 (header mirror: C12_header_layout_insensitive_ctor) / C10 (layout clause): the value the "
+                                               "section parser returns depends on white space between the '(' of a constructor value and its argument",
+                                   "parser": "GrmtoolsSectionParser::parse (required=%s)" % (w == "H1"), "text": t, "reference_text": ref,
+                                   "impl": oa[:400], "impl_on_reference": ob[:400], "mirror": m_ctor[(1 if w == "H1" else 0, t)][:400],
+                                   "replay_cmd": "echo '%s' | .work/target/release/c12 ; echo '%s' | .work/target/release/c12" % (la, lb)})
+        ctx.oblige(n_fam_bad == 0 and n_fam == 2 * len(fam),
+                   "implementation on the constructor white-space family: %d of %d (section, required) pairs give the value of the "
+                   "section without the white space" % (n_fam - n_fam_bad, 2 * len(fam)))
+    ctx.coverage["ctor_ws_family_sections"] = len(fam)
+    ctx.coverage["ctor_ws_family_compared_on_impl"] = n_fam
+    ctx.coverage["ctor_ws_variant_tied"] = bool(CTOR_WS_FIXED and DEPTH_FIXED)
     for d in deferred[:20]:
         ctx.violation(d, no_input=True)
     ctx.oblige(ndiff == 0, "header correspondence (impl = %s mirror) on %d runs" % (variant, ncorr))
